@@ -139,6 +139,10 @@ func (hc *hashCollector) src(v ssa.Value, env map[ssa.Value][]hsrc, d int) []hsr
 		}
 		return mapx(hc.src(x.X, env, d+1), x.Op.String())
 	case *ssa.Alloc:
+		if _, isStruct := deref(x.Type()).Underlying().(*types.Struct); isStruct {
+			// a copy of a struct value (the range variable of `for _, e := range list`): its fields are the element's
+			return hc.allocStores(x, env, d)
+		}
 		return mapx(hc.allocStores(x, env, d), "boxed")
 	case *ssa.Phi:
 		var out []hsrc
@@ -249,7 +253,38 @@ func (hc *hashCollector) collect(fn *ssa.Function, env map[ssa.Value][]hsrc) {
 				}
 				if k := hc.primKind(callee); k != "" {
 					arg := x.Call.Args[len(x.Call.Args)-1]
-					hc.encs = append(hc.encs, henc{kind: k, srcs: hc.src(arg, env, 0), call: x, fn: fn, arg: arg, env: env})
+					srcs := hc.src(arg, env, 0)
+					// a constant flag written on a path that has tested a pointer is that pointer's presence:
+					// `if p == nil { number(true); return }; number(false)` says what `number(p == nil)` says
+					av := arg
+					if mi, isMI := av.(*ssa.MakeInterface); isMI {
+						av = mi.X
+					}
+					if kc, isC := av.(*ssa.Const); isC {
+						if bv, isB := constBool(kc); isB {
+							conds := dominatingConds(x.Block())
+							for i := len(conds) - 1; i >= 0; i-- {
+								ce := conds[i]
+								cond, val := normalizeCond(ce.Cond, ce.Val)
+								bo, ok := cond.(*ssa.BinOp)
+								if !ok || !isNilConst(bo.Y) || (bo.Op != token.EQL && bo.Op != token.NEQ) {
+									continue
+								}
+								isNil := (bo.Op == token.EQL) == val
+								xf := "isnil"
+								if bv != isNil {
+									xf = "notnil"
+								}
+								var out []hsrc
+								for _, s0 := range hc.src(bo.X, env, 0) {
+									out = append(out, s0.with(xf))
+								}
+								srcs = out
+								break
+							}
+						}
+					}
+					hc.encs = append(hc.encs, henc{kind: k, srcs: srcs, call: x, fn: fn, arg: arg, env: env})
 					continue
 				}
 				hs := hc.c.hashShapeOf()
